@@ -7,6 +7,7 @@ from typing import Any, ClassVar
 
 from tree_sitter import Node
 
+from nix_manipulator.expressions.points import point_row
 from nix_manipulator.expressions.comment import Comment
 from nix_manipulator.expressions.expression import NixExpression, TypedExpression
 from nix_manipulator.expressions.identifier import Identifier
@@ -77,7 +78,7 @@ class FunctionCall(TypedExpression):
             child
             for child in comment_nodes
             if child.start_byte > function_node.end_byte
-            and child.start_point.row == function_node.end_point.row
+            and point_row(child.start_point) == point_row(function_node.end_point)
         ]
         if inline_comment_nodes:
             inline_comment_nodes.sort(key=lambda child: child.start_byte)
